@@ -3,7 +3,7 @@
    (the "keep their data" clause is C04_data_* in BufOps, see C04b below) *)
 From Coq Require Import ZArith List Bool Lia.
 Import ListNotations.
-From XO Require Import Slots Chunks ChunksProofs AllocSpec AllocProofs.
+From XO Require Import Slots Chunks ChunksProofs AllocSpec AllocProofs BufOps BufOpsProofs.
 Open Scope Z_scope.
 
 (* SInv s: live regions pairwise disjoint, inside [0,cap), each start a multiple
@@ -30,6 +30,14 @@ Theorem C04_walk_sound : forall w, walk_safe w = None ->
   exists s', safe_trace (init_state (fst (w_init w))) (ops_of (w_steps w)) s' /\ SInv s'.
 Proof. exact walk_safe_sound. Qed.
 
+(* "keep their data": allocate and free do not touch buffer memory at all (they only
+   edit the free list); grow moves the bytes to new storage at the same offsets *)
+Theorem C04_data_preserved_by_grow : forall m n, 0 <= n ->
+  let m' := b_mem (fst (exec (mkB m []) (BGrow n))) in
+  Z.of_nat (length m') = Z.of_nat (length m) + n /\ rd m' 0 (Z.of_nat (length m)) = m /\
+  forall i, Z.of_nat (length m) <= i -> byte m' i = 0.
+Proof. exact grow_preserves. Qed.
+
 Example C04_walk_example :
   walk_safe (mkW (64, [(0,64)])
     [ mkO (OAlloc 10 8) (RetOff 0) (64, [(10,64)]) 54;
@@ -45,3 +53,4 @@ Print Assumptions C04_fresh_buffer.
 Print Assumptions C04_first_fit_is_safe.
 Print Assumptions C04_checker_sound.
 Print Assumptions C04_walk_sound.
+Print Assumptions C04_data_preserved_by_grow.
